@@ -3,11 +3,17 @@
     SymbolicTensorNetwork) to Gallina.  Python dicts are association lists that keep the
     insertion order (generate_bonds, as_einsum and merge iterate them); exceptions
     (ValueError / KeyError / AssertionError / RuntimeError) are [None].
-    The model is the code WITH the proposed repairs (see /verif/notes/C08.md, C07.md):
+    The model is the code WITH the repairs (see /verif/notes/C08.md, C07.md):
       - merge: each deleted open axis is handled once (del_axes = axes not kept in axes_map),
       - is_consistent: the number of legs of a tensor on a bond must equal the number of
         references of the bond to the tensor,
-      - contract_einsum (TNValue.v): dimension of a ones-vector looked up by position.
+      - contract_einsum (TNValue.v): dimension of a ones-vector looked up by position,
+      - transpose: negative axes count from the last axis; refused unless the axes are a
+        permutation of all axes  (proposed_fixes/C08-transpose-requires-permutation.diff),
+      - merge: refused when joined open axes have different dimensions
+        (proposed_fixes/C08-merge-checks-join-dimensions.diff),
+      - rename_tensor: the public method refuses the virtual tensor -1; merge relabels its
+        private copy through _rename_tensor  (proposed_fixes/C08-rename-tensor-refuses-virtual.diff).
     No proofs in this file. *)
 From Qib Require Export Base.Scalar.
 Local Open Scope Z_scope.
@@ -128,21 +134,40 @@ Definition num_bonds (n : net) : nat := length (bonds n).
 Definition num_open_axes (n : net) : option nat := option_map t_ndim (dget VT (tensors n)).
 Definition shape (n : net) : option (list nat) := option_map t_shape (dget VT (tensors n)).
 
-(** SymbolicTensor.transpose / SymbolicTensorNetwork.transpose.
-    [None] for repeated axes (ValueError) and for an axis >= ndim (IndexError).
-    The code does not check that [axes] covers all axes. *)
-Definition transpose (n : net) (axes : list nat) : option net :=
+(** SymbolicTensor.transpose / SymbolicTensorNetwork.transpose (explicit axes; axes=None is
+    the reversed range).  A negative entry counts from the last axis
+        axes = [ax + self.ndim if ax < 0 else ax for ax in axes]
+    and the call is refused (ValueError = [None]) unless
+        sorted(axes) == list(range(self.ndim)). *)
+Fixpoint zlist_eqb (a b : list Z) : bool :=
+  match a, b with
+  | [], [] => true
+  | x :: a', y :: b' => Z.eqb x y && zlist_eqb a' b'
+  | _, _ => false
+  end.
+Definition norm_axes (ndim : nat) (axes : list Z) : list Z :=
+  map (fun ax => if Z.ltb ax 0 then ax + Z.of_nat ndim else ax) axes.
+Definition axes_refused (ndim : nat) (axes : list Z) : bool :=
+  negb (zlist_eqb (zsort (norm_axes ndim axes)) (map Z.of_nat (seq 0 ndim))).
+(** the axes the accepted call uses, as positions *)
+Definition nat_axes (n : net) (axes : list Z) : list nat :=
+  match dget VT (tensors n) with
+  | Some t => map Z.to_nat (norm_axes (t_ndim t) axes)
+  | None => []
+  end.
+Definition transpose (n : net) (axes : list Z) : option net :=
   match dget VT (tensors n) with
   | None => None
   | Some t =>
-      if negb (nnodupb axes) then None
-      else if negb (forallb (fun ax => Nat.ltb ax (t_ndim t) && Nat.ltb ax (length (t_bids t))) axes) then None
-      else Some (mkN (dset VT (mkT (t_id t) (map (fun ax => nth ax (t_shape t) O) axes)
-                                        (map (fun ax => nth ax (t_bids t) 0) axes) (t_ref t)) (tensors n))
-                     (bonds n))
+      if axes_refused (t_ndim t) axes then None
+      else
+        let axs := map Z.to_nat (norm_axes (t_ndim t) axes) in
+        (* self.bids[ax]: IndexError when bids is shorter than shape (no object of the class) *)
+        if negb (forallb (fun ax => Nat.ltb ax (length (t_bids t))) axs) then None
+        else Some (mkN (dset VT (mkT (t_id t) (map (fun ax => nth ax (t_shape t) O) axs)
+                                          (map (fun ax => nth ax (t_bids t) 0) axs) (t_ref t)) (tensors n))
+                       (bonds n))
   end.
-Definition rev_axes (n : net) : list nat :=
-  match dget VT (tensors n) with Some t => rev (seq 0 (t_ndim t)) | None => [] end.
 
 (** the loop  "for bid in bids: bond = bonds[bid]; replace a by c in bond.tids; sort" *)
 Definition retid_step (a c : Z) (B : dict bond) (bid : Z) : option (dict bond) :=
@@ -151,7 +176,9 @@ Definition retid_step (a c : Z) (B : dict bond) (bid : Z) : option (dict bond) :
   | Some b => Some (dset bid (set_btids b (zsort (zreplace a c (b_tids b)))) B)
   end.
 
-Definition rename_tensor (n : net) (a c : Z) : option net :=
+(** _rename_tensor: the private worker (merge relabels the shared ids of its copy, the
+    virtual tensor included, through it) *)
+Definition rename_tensor_priv (n : net) (a c : Z) : option net :=
   match dget a (tensors n) with
   | None => None
   | Some t =>
@@ -162,6 +189,10 @@ Definition rename_tensor (n : net) (a c : Z) : option net :=
            | Some B => Some (mkN (dpop a (tensors n) ++ [(c, set_tid t c)]) B)
            end
   end.
+
+(** rename_tensor: the public method refuses the virtual tensor of the open axes *)
+Definition rename_tensor (n : net) (a c : Z) : option net :=
+  if Z.eqb a VT then None else rename_tensor_priv n a c.
 
 (** the loop "for tid in tids: tensor = tensors[tid]; replace bid a by c in tensor.bids" *)
 Definition rebid_step (a c : Z) (T : dict tensor) (tid : Z) : option (dict tensor) :=
@@ -244,7 +275,7 @@ Fixpoint relabel_tensors (o : net) (ord : list Z) (next : Z) (tmp : Z) : option 
   match ord with
   | [] => Some (o, tmp)
   | tid :: r =>
-      match rename_tensor o tid next with
+      match rename_tensor_priv o tid next with
       | None => None
       | Some o' => relabel_tensors o' r (next + 1) (if Z.eqb tid VT then next else tmp)
       end
@@ -266,6 +297,9 @@ Definition is_shared_order (ord k1 k2 : list Z) : bool :=
 
 Definition vbids (n : net) : list Z :=
   match dget VT (tensors n) with Some t => t_bids t | None => [] end.
+
+Definition vshape (n : net) : list nat :=
+  match dget VT (tensors n) with Some t => t_shape t | None => [] end.
 
 (** one join: merge the two bonds, drop the two axes from the list of kept axes *)
 Definition join_step (norig : nat) (st : net * list nat) (j : nat * nat) : option (net * list nat) :=
@@ -303,7 +337,8 @@ Definition merge (n o : net) (joins : list (nat * nat)) (ordT ordB : list Z) : o
       match (match joins with [] => Some O | _ => num_open_axes o end) with
       | None => None
       | Some nother =>
-          if negb (forallb (fun j => Nat.ltb (fst j) norig && Nat.ltb (snd j) nother) joins) then None
+          if negb (forallb (fun j => Nat.ltb (fst j) norig && Nat.ltb (snd j) nother
+                                     && Nat.eqb (nth (fst j) (vshape n) O) (nth (snd j) (vshape o) O)) joins) then None
           else if negb (is_shared_order ordT (dkeys (tensors n)) (dkeys (tensors o))) then None
           else if negb (is_shared_order ordB (dkeys (bonds n)) (dkeys (bonds o))) then None
           else
